@@ -2,6 +2,7 @@ use crate::analysis::serde_parser::SerdeParser;
 use crate::analysis::type_resolver::TypeResolver;
 use crate::models::{CommandInfo, ParameterInfo};
 use std::path::Path;
+use syn::ext::IdentExt;
 use syn::{File as SynFile, FnArg, ItemFn, PatType, ReturnType, Type};
 
 /// Parser for Tauri command functions
@@ -97,7 +98,7 @@ impl CommandParser {
             .filter_map(|input| {
                 if let FnArg::Typed(PatType { pat, ty, attrs, .. }) = input {
                     if let syn::Pat::Ident(pat_ident) = pat.as_ref() {
-                        let name = pat_ident.ident.to_string();
+                        let name = pat_ident.ident.unraw().to_string();
 
                         // Skip Tauri-specific parameters
                         if self.is_tauri_parameter_type(ty) {
